@@ -4,6 +4,7 @@ package main
 
 import (
 	"fmt"
+	"go/ast"
 	"go/types"
 	"sort"
 	"strings"
@@ -38,6 +39,11 @@ func familyLabels(ct *Contract) map[string]bool {
 	for _, f := range ct.Families {
 		if len(f.Labels) > 0 {
 			m[f.Labels[0]] = true
+		}
+	}
+	for _, sc := range ct.Scenarios {
+		if len(sc.Labels) > 0 {
+			m[sc.Labels[0]] = true
 		}
 	}
 	return m
@@ -153,6 +159,9 @@ func (u *Universe) runFunc(c *Ctx, p *Path, fr *frame, env0 *SpecEnv, mode runMo
 			continue
 		}
 		n++
+		if traceForks && pi < 40 {
+			fmt.Println("TRACE", pi, q.Trace, q.Ret)
+		}
 		if mode.fam != nil && mode.fam.ReplCallee != "" && !q.CutSeen["replace"] {
 			continue // path does not pass through the replaced call: covered by the stop family / symbolic run
 		}
@@ -789,4 +798,106 @@ func (u *Universe) lemmaTemplate(lm *Lemma, st *SpecTables) (*FamTemplate, error
 	t.Body = g
 	t.Parts = []string{"lemma:" + lm.Name}
 	return t, nil
+}
+
+// verifyScenario: a symbolic run with some parameters bound to structured terms over ghost variables
+// (e.g. the canonical vector string of symbolic valid codes); checks the ensures carrying the scenario's key label.
+func (u *Universe) verifyScenario(fi *FuncInfo, sc *ScenarioSpec) *FuncResult {
+	res := &FuncResult{Fn: fi, Families: map[string]int{}}
+	c, p, fr, env := u.enter(fi)
+	c.ForceInline = map[string]bool{}
+	for _, k := range sc.Inline {
+		c.ForceInline[k] = true
+	}
+	for _, g := range sc.Ghosts {
+		srt := specSortOfTypeName(g.Type)
+		name := "gh_" + sanitize(g.Name)
+		c.declare(name, srt)
+		env.Vars[g.Name] = SV{T: Term{S: name, Sort: srt}}
+	}
+	ct := fi.Contract
+	if r := fi.Sig.Recv(); r != nil && sc.Recv != "" {
+		switch sc.Recv {
+		case "nil":
+			p.Vars[r] = mkInt(0)
+		case "new":
+			tn := ""
+			if pt, ok := r.Type().(*types.Pointer); ok {
+				if nt, ok := pt.Elem().(*types.Named); ok {
+					tn = nt.Obj().Name()
+				}
+			}
+			cons := u.Funcs[aliasOf(fi.Obj.Pkg())+".New"+tn]
+			if cons == nil {
+				u.problem("%s scenario %s: no constructor New%s", fi.Key, sc.Name, tn)
+				return res
+			}
+			pvs := fr.callInline(p, &ast.CallExpr{Fun: ast.NewIdent("New" + tn)}, cons, nil, nil)
+			if len(pvs) != 1 {
+				u.problem("%s scenario %s: constructor has %d paths", fi.Key, sc.Name, len(pvs))
+				return res
+			}
+			p = pvs[0].P
+			p.Vars[r] = pvs[0].V
+		}
+		sv := valueToSV(p.Vars[r], r.Type())
+		env.P = p
+		if ct.Recv != "" {
+			env.Vars[ct.Recv] = sv
+		}
+		env.Vars[r.Name()] = sv
+	}
+	for pname, e := range sc.Binds {
+		v := env.eval(e)
+		if env.Err != nil {
+			u.problem("%s scenario %s bind %s: %v", fi.Key, sc.Name, pname, env.Err)
+			return res
+		}
+		bound := false
+		for i := 0; i < fi.Sig.Params().Len(); i++ {
+			prm := fi.Sig.Params().At(i)
+			cn := ""
+			if i < len(ct.Params) {
+				cn = ct.Params[i]
+			}
+			if prm.Name() == pname || cn == pname {
+				p.Vars[prm] = v.T
+				env.Vars[pname] = SV{T: v.T, GoT: prm.Type()}
+				env.Vars[prm.Name()] = SV{T: v.T, GoT: prm.Type()}
+				bound = true
+			}
+		}
+		if !bound {
+			u.problem("%s scenario %s: no parameter %s", fi.Key, sc.Name, pname)
+		}
+	}
+	for i, rq := range ct.Requires {
+		t := env.evalBool(rq.Expr)
+		if env.Err != nil {
+			u.problem("%s: requires %d: %v", fi.Key, i, env.Err)
+			env.Err = nil
+			continue
+		}
+		p.assume(t)
+	}
+	if sc.Assume != nil {
+		t := env.evalBool(sc.Assume)
+		if env.Err != nil {
+			u.problem("%s scenario %s assume: %v", fi.Key, sc.Name, env.Err)
+			return res
+		}
+		p.assume(t)
+	}
+	cov := &Oblig{Name: fi.Key + "#scenario:" + sc.Name + ":cover", Kind: "cover", Assumes: append([]Term(nil), p.Conds...), Goal: tFalse, Func: fi.Key, Decls: c, Labels: []string{"cover"}}
+	c.Obligs = append(c.Obligs, cov)
+	lbl := map[string]bool{}
+	if len(sc.Labels) > 0 {
+		lbl[sc.Labels[0]] = true
+	}
+	c.Instance = "scenario " + sc.Name
+	res.Paths = u.runFunc(c, p, fr, env, runMode{labels: lbl, noFrame: true, noSafety: true})
+	res.Obligs = c.Obligs
+	res.Untrans = c.Untrans
+	res.Axioms = c.AxiomsUsed
+	return res
 }
